@@ -496,7 +496,8 @@ pub fn managed_steady_race(prop: &'static str, seed: u64) -> RaceOut {
 pub fn handle_drop_race(prop: &'static str, seed: u64) -> RaceOut {
     use std::sync::atomic::AtomicU64;
     let mut rng = Rng::derive(seed, 0xd509, 0);
-    let trials = rng.range(4000, 10000) as u64;
+    // (building a pool reads /proc/cpuinfo for its default size: a trial costs about 0.1 ms whatever the harness does)
+    let trials = rng.range(1500, 4000) as u64;
     let mut viol: Vec<Violation> = Vec::new();
     let mut by_use = [0u64; 4];
     let mut ahead = 0u64; // trials in which the handle was gone before the use started
